@@ -279,7 +279,15 @@ def run_bfs(harness, monitors, prop, opts):
             level = Result()
             timed_out = False
             done = 0
-            for r in pool.imap(process_states, chunks):
+            it = pool.imap(process_states, chunks)
+            while done < len(chunks):
+                try:
+                    r = it.next(timeout=opts.get('chunk_timeout', 1500))
+                except mp.TimeoutError:
+                    # a single chunk that takes this long means a step of the library does not terminate
+                    pool.terminate()
+                    raise target.HarnessError(f'a chunk of {len(chunks[0])} states did not finish within '
+                                              f'{opts.get("chunk_timeout", 1500)} s (a library call that does not return?)')
                 level.merge(r)
                 done += 1
                 if time.time() > deadline and done < len(chunks):
@@ -367,7 +375,14 @@ def run_enum(worker_fn, items, opts=None, chunk=200, time_cap=None):
     ctx = mp.get_context('fork')
     done = 0
     with ctx.Pool(NWORKERS, initializer=_enum_init, initargs=(worker_fn, opts)) as pool:
-        for r in pool.imap(_enum_chunk, chunks):
+        it = pool.imap(_enum_chunk, chunks)
+        while done < len(chunks):
+            try:
+                r = it.next(timeout=opts.get('chunk_timeout', 1500))
+            except mp.TimeoutError:
+                pool.terminate()
+                raise target.HarnessError(f'a chunk of {len(chunks[0])} items did not finish within '
+                                          f'{opts.get("chunk_timeout", 1500)} s (a library call that does not return?)')
             total.merge(r)
             done += 1
             if time_cap and time.time() - t0 > time_cap and done < len(chunks):
